@@ -1974,8 +1974,9 @@ def compute_unique_slug(
         if child.type in ["text", "code_inline"]
     )
     slug = slug_func(title)
+    unique_slug = slug
     i = 1
-    while slug in slugs:
-        slug = f"{slug}-{i}"
+    while unique_slug in slugs:
+        unique_slug = f"{slug}-{i}"
         i += 1
-    return slug
+    return unique_slug
